@@ -84,11 +84,20 @@ type scriptReq struct {
 	Actions   []scriptAction `json:"actions"`
 	QuiesceMs int            `json:"quiesceMs"` // how long to wait for started queries to return
 	SettleMs  int            `json:"settleMs"`  // how long to wait for tables/goroutines to drain afterwards
+	// SettleMaxMs: goroutines of finished queries that are still *moving* (running, or their stack
+	// changes between dumps) are waited for up to this long instead of SettleMs (0 = SettleMs)
+	SettleMaxMs int `json:"settleMaxMs,omitempty"`
+	// ServerTimeoutSecs > 0: the whole sequence runs under this queryTimeoutSecs instead of the
+	// script's base timeout. The worker was started with VERIF_QUERY_TIMEOUT_SECS, but the server
+	// configuration raises anything below MIN_QUERY_TIMEOUT_SECONDS (60) to 60, so the configured
+	// value is scaled down here through config.SetQueryTimeoutSecs (the variable the configuration
+	// loader and the /api/config timeout handler write; setupTimeoutCancelFunc reads it per query).
+	ServerTimeoutSecs int `json:"serverTimeoutSecs,omitempty"`
 }
 
 type startedQuery struct {
 	Seq      int    `json:"seq"`
-	Mode     string `json:"mode"` // sync | ws | burst
+	Mode     string `json:"mode"` // sync | ws | burst | http
 	Query    int    `json:"query"`
 	Qid      uint64 `json:"qid"`
 	Returned bool   `json:"returned"`
@@ -112,6 +121,30 @@ type scriptReport struct {
 	NotReturned    int             `json:"notReturned"`
 	SettleWaitedMs int64           `json:"settleWaitedMs"`
 	GoroutineDump  string          `json:"goroutineDump,omitempty"`
+	// exact goroutine oracle
+	TimeoutSecsAtStart    int           `json:"timeoutSecsAtStart"`    // config.GetQueryTimeoutSecs() when the first query started
+	ConfiguredTimeoutSecs int           `json:"configuredTimeoutSecs"` // what the server configuration had set
+	BaselineDumpSize      int           `json:"baselineDumpSize"`      // goroutines in the dump taken before the first query
+	DumpsCompared         int           `json:"dumpsCompared"`         // dumps taken after quiescence and compared with the baseline
+	Leaked                []leakedGorou `json:"leaked,omitempty"`      // goroutines of finished queries still present in the last dump
+	// Lingered: per-query function -> longest time (ms) a goroutine with that function was still
+	// seen after quiescence (goroutines that went away by themselves included)
+	Lingered map[string]int64 `json:"lingered,omitempty"`
+	// OtherNew: goroutines in the last dump that are not in the baseline and have a siglens frame,
+	// but none of a per-query package (observation only): first siglens function -> count
+	OtherNew map[string]int `json:"otherNew,omitempty"`
+}
+
+// leakedGorou is a goroutine that did not exist before the first query, has a frame in a
+// per-query package and is still there after every query has returned.
+type leakedGorou struct {
+	ID       uint64 `json:"id"`
+	State    string `json:"state"`
+	Func     string `json:"func"`     // first per-query function on its stack
+	Waiting  bool   `json:"waiting"`  // not running/runnable in the last dump
+	StableMs int64  `json:"stableMs"` // for how long state and stack have been identical
+	SeenMs   int64  `json:"seenMs"`   // for how long it has been seen after quiescence
+	Stack    string `json:"stack"`
 }
 
 var scriptQid uint64 = 5_000_000
@@ -143,15 +176,27 @@ func opScript(req *sut.Req) (interface{}, error) {
 	if err := json.Unmarshal(req.Body, &sr); err != nil {
 		return nil, err
 	}
+	// Baseline of the exact goroutine oracle: everything alive before the first query (the
+	// background loops started at initialisation, the command loop of the worker, this goroutine).
+	baseIDs := map[uint64]bool{}
+	for _, g := range allGoroutines() {
+		baseIDs[g.ID] = true
+	}
 	ln := wsServer()
 	// Base timeout for this sequence: a query that runs longer is timed out by the server itself,
 	// so "every started query returns" is decidable well within QuiesceMs.
-	config.SetQueryTimeoutSecs(scriptBaseTimeoutSecs)
+	configuredTimeout := config.GetQueryTimeoutSecs()
+	if sr.ServerTimeoutSecs <= 0 {
+		config.SetQueryTimeoutSecs(scriptBaseTimeoutSecs)
+	} else if configuredTimeout != sr.ServerTimeoutSecs {
+		config.SetQueryTimeoutSecs(sr.ServerTimeoutSecs)
+	}
 	// warm up the websocket path once so that its lazily started goroutines are part of the baseline
 	runWS(ln, &sr, "*", -1, &startedQuery{})
 	time.Sleep(50 * time.Millisecond)
 	runtime.GC()
-	rep := &scriptReport{Limit: query.MAX_RUNNING_QUERIES, Baseline: readQStats()}
+	rep := &scriptReport{Limit: query.MAX_RUNNING_QUERIES, Baseline: readQStats(), TimeoutSecsAtStart: config.GetQueryTimeoutSecs(),
+		ConfiguredTimeoutSecs: configuredTimeout, BaselineDumpSize: len(baseIDs)}
 
 	var mu sync.Mutex
 	var wg sync.WaitGroup
@@ -201,6 +246,30 @@ func opScript(req *sut.Req) (interface{}, error) {
 			}()
 			return sq
 		}
+		if mode == "http" {
+			// the entry point of POST /api/search: the handler allots the qid itself
+			go func() {
+				defer wg.Done()
+				t0 := time.Now()
+				status, body := runHTTPSearch(&sr, text)
+				mu.Lock()
+				defer mu.Unlock()
+				sq.TookMs = time.Since(t0).Milliseconds()
+				sq.Returned = true
+				switch {
+				case status == fasthttp.StatusOK && body == "null":
+					sq.Outcome = "cancelled" // (nil, nil) of RunQueryForNewPipeline written as JSON
+				case status == fasthttp.StatusOK:
+					sq.Outcome = "response"
+				default:
+					if len(body) > 400 {
+						body = body[:400]
+					}
+					sq.Outcome = fmt.Sprintf("error:http %d: %s", status, body)
+				}
+			}()
+			return sq
+		}
 		qid := atomic.AddUint64(&scriptQid, 1)
 		sq.Qid = qid
 		go func() {
@@ -232,6 +301,12 @@ func opScript(req *sut.Req) (interface{}, error) {
 		switch a.Kind {
 		case "sync":
 			start("sync", a.Query, -1)
+		case "http":
+			start("http", a.Query, -1)
+		case "httpburst":
+			for i := 0; i < a.N; i++ {
+				start("http", a.Query, -1)
+			}
 		case "ws":
 			start("ws", a.Query, a.CancelAfterMs)
 		case "burst":
@@ -303,20 +378,83 @@ func opScript(req *sut.Req) (interface{}, error) {
 	}
 	mu.Unlock()
 	config.SetQueryTimeoutSecs(300)
-	// settle: tables empty and goroutines back to the baseline
+	// settle: tables empty, goroutine count back to the baseline, and no goroutine of a query left
+	type seenG struct {
+		first, sigSince time.Time
+		sig, fn         string
+	}
+	rep.Lingered = map[string]int64{}
+	seen := map[uint64]*seenG{}
+	var offenders []goroutineInfo
+	settleMax := sr.SettleMaxMs
+	if settleMax < sr.SettleMs {
+		settleMax = sr.SettleMs
+	}
 	t0 := time.Now()
 	for {
 		runtime.GC()
 		rep.Final = readQStats()
-		if rep.Final.Active == 0 && rep.Final.Waiting == 0 && rep.Final.Goroutines <= rep.Baseline.Goroutines+goroutineSlack {
+		now := time.Now()
+		offenders = offenders[:0]
+		if rep.NotReturned == 0 {
+			rep.DumpsCompared++
+			present := map[uint64]bool{}
+			rep.OtherNew = map[string]int{}
+			for _, g := range allGoroutines() {
+				if !baseIDs[g.ID] && g.Query == "" && g.Siglens != "" {
+					rep.OtherNew[g.Siglens]++
+				}
+				if baseIDs[g.ID] || g.Query == "" {
+					continue
+				}
+				offenders = append(offenders, g)
+				present[g.ID] = true
+				if sg := seen[g.ID]; sg == nil {
+					seen[g.ID] = &seenG{first: now, sigSince: now, sig: g.Sig, fn: g.Query}
+				} else if sg.sig != g.Sig {
+					sg.sig, sg.sigSince = g.Sig, now
+				}
+				if ms := now.Sub(seen[g.ID].first).Milliseconds(); ms >= rep.Lingered[g.Query] {
+					rep.Lingered[g.Query] = ms
+				}
+			}
+			for id := range seen {
+				if !present[id] {
+					delete(seen, id)
+				}
+			}
+		}
+		if rep.Final.Active == 0 && rep.Final.Waiting == 0 && rep.Final.Goroutines <= rep.Baseline.Goroutines+goroutineSlack && len(offenders) == 0 {
 			break
 		}
-		if time.Since(t0) > time.Duration(sr.SettleMs)*time.Millisecond {
-			break
+		if el := time.Since(t0); el > time.Duration(sr.SettleMs)*time.Millisecond {
+			// still moving goroutines of finished queries (residual work) get more time; blocked
+			// ones do not: nothing is going to wake them
+			moving := false
+			for _, g := range offenders {
+				if !g.Waiting || now.Sub(seen[g.ID].sigSince) < leakStableMs*time.Millisecond {
+					moving = true
+				}
+			}
+			if !moving || el > time.Duration(settleMax)*time.Millisecond {
+				break
+			}
 		}
 		time.Sleep(100 * time.Millisecond)
 	}
 	rep.SettleWaitedMs = time.Since(t0).Milliseconds()
+	for _, g := range offenders {
+		sg := seen[g.ID]
+		if len(rep.Leaked) >= 40 {
+			break
+		}
+		stack := g.Text
+		if len(stack) > 3000 {
+			stack = stack[:3000] + "..."
+		}
+		rep.Leaked = append(rep.Leaked, leakedGorou{ID: g.ID, State: g.State, Func: g.Query, Waiting: g.Waiting,
+			StableMs: time.Since(sg.sigSince).Milliseconds(), SeenMs: time.Since(sg.first).Milliseconds(), Stack: stack})
+	}
 	if rep.NotReturned > 0 || rep.Final.Active != 0 || rep.Final.Waiting != 0 || rep.Final.Goroutines > rep.Baseline.Goroutines+goroutineSlack {
 		rep.GoroutineDump = goroutineSummary()
 	}
@@ -326,6 +464,22 @@ func opScript(req *sut.Req) (interface{}, error) {
 }
 
 const goroutineSlack = 8
+
+// leakStableMs: a goroutine of a finished query counts as "staying" when it is in a waiting
+// state with an unchanged stack for at least this long at the end of the settle period.
+const leakStableMs = 3000
+
+// runHTTPSearch sends one search request through the handler of POST /api/search.
+func runHTTPSearch(sr *scriptReq, text string) (int, string) {
+	body, _ := json.Marshal(map[string]interface{}{"searchText": text, "indexName": sr.Index, "startEpoch": sr.Start, "endEpoch": sr.End,
+		"queryLanguage": "Splunk QL"})
+	ctx := &fasthttp.RequestCtx{}
+	ctx.Request.Header.SetMethod("POST")
+	ctx.Request.SetRequestURI("/api/search")
+	ctx.Request.SetBody(body)
+	pipesearch.ProcessPipeSearchRequest(ctx, 0)
+	return ctx.Response.StatusCode(), string(ctx.Response.Body())
+}
 
 const scriptBaseTimeoutSecs = 20
 
